@@ -263,7 +263,9 @@ func headerAt(out []byte, off int) string {
 
 var knownRespHeader = map[string]bool{"set-cookie": true, "location": true, "link": true, "content-type": true,
 	"content-disposition": true, "vary": true, "x-inj": true, "x-rid": true, "content-length": true, "date": true, "server": true,
-	"x-content-type-options": true, "connection": true, "x-is-head": true, "etag": true, "last-modified": true, "x-outcome": true, "x-multi": true}
+	"x-content-type-options": true, "connection": true, "x-is-head": true, "etag": true, "last-modified": true, "x-outcome": true, "x-multi": true,
+	// set by fiber / fasthttp themselves on some paths
+	"allow": true, "transfer-encoding": true, "content-encoding": true, "accept-ranges": true, "content-range": true, "trailer": true}
 
 func isToken(b []byte) bool {
 	if len(b) == 0 {
@@ -343,7 +345,7 @@ func isoInput() ([]byte, string) {
 
 func isolated(e *ev.Env, c *ev.Case, engine string, payload []byte, meta string) (runHere bool) {
 	input := hexOf(payload)
-	if e.Only != "" {
+	if e.Only != "" && os.Getenv("WIRE_ISOLATE_IN_REPLAY") == "" {
 		return true
 	}
 	if vt.Enabled || raceBuild {
@@ -441,6 +443,9 @@ func mergeChild(e *ev.Env, c *ev.Case, b []byte) {
 // positive only costs a child process.
 func fatalCandidate(raw []byte) bool {
 	if zstdDeclared(raw) >= 16<<20 {
+		return true
+	}
+	if bytes.Contains(raw, []byte("chunked")) && zstdDeclared(stripChunkLines(raw)) >= 16<<20 {
 		return true
 	}
 	name := []byte(fiber.FlashCookieName)
